@@ -299,6 +299,85 @@ def evaluate(model, build):
     return res
 
 
+def numerical_gradient(rep, model):
+    """R5b: `NumericalGradient` evaluated with a symbolic step h on
+    polynomial functionals over weighted model spaces: every entry is a
+    rational function of h whose limit h -> 0 must be (d f / d x_j) / w_j,
+    for the three difference methods."""
+    DER = 'odl/solvers/functional/derivatives.py'
+    ci = model.get('NumericalGradient')
+    if ci is None:
+        raise AnalysisError('anchor vanished: NumericalGradient')
+
+    def inst(I, cls, *a, **k):
+        return I.instantiate(model.get(cls), list(a), k)
+    X = spaces()
+    funs = {
+        'L2NormSquared': lambda I, w: inst(I, 'L2NormSquared', X(w)),
+        'QuadraticForm[vector, constant]': lambda I, w: inst(
+            I, 'QuadraticForm', vector=sym_elem(X(w), 'b'),
+            constant=Rat.var('c')),
+        'L2NormSquared * PowerOperator(3)': lambda I, w: I.binop(
+            ast.Mult, inst(I, 'L2NormSquared', X(w)),
+            inst(I, 'PowerOperator', X(w), 3)),
+    }
+    n = 0
+    h = Rat.var('h')
+    for fname, mk in funs.items():
+        for w in (None, 'const', 'array'):
+            for method in ('forward', 'backward', 'central'):
+                n += 1
+                t = {None: 'unweighted', 'const': 'weight w',
+                     'array': 'weights w0..w2'}[w]
+                cons = 'NumericalGradient[%s,%s,%s]' % (fname, method, t)
+                try:
+                    H = H9()
+                    H.signs.positive.add('h')
+                    I = SMInterp(model, {}, H)
+                    f = mk(I, w)
+                    dom = I.getattr_value(f, 'domain')
+                    ng = I.instantiate(ci, [f], {'method': method,
+                                                 'step': h})
+                    got = I.call(ng, [sym_elem(dom, 'x')], {})
+                    if isinstance(got, NA):
+                        got = H.element(I, dom, got)
+                    gs = flat(got)
+                    fx = PA.ired(to_rat(I.call(f, [sym_elem(dom, 'x')], {})))
+                    xs = flat(sym_elem(dom, 'x'))
+                    ws = entry_weights(dom)
+                    bad = None
+                    for j, (gv, xv, wj) in enumerate(zip(gs, xs, ws)):
+                        (var,) = list(xv.vars())
+                        want = mdiff.diff(fx, var) / wj
+                        lim = PA.cancel_mono(PA.reduce_full(gv))
+                        if 'h' in lim.d.subs({'h': Rat.const(0)}).vars() or \
+                                lim.d.subs({'h': Rat.const(0)}).is_zero():
+                            raise Undecided('limit h -> 0 of %r' % (gv,))
+                        lim = lim.subs({'h': Rat.const(0)})
+                        if not PA.equal_exact(lim, want, WIT):
+                            bad = ('entry %d tends to %s for h -> 0, '
+                                   '(df/dx_%d)/w_%d is %s' % (
+                                       j, _s(PA.reduce_full(lim)), j, j,
+                                       _s(PA.reduce_full(want))))
+                            break
+                    if bad:
+                        rep.violation('R5b', cons, bad, DER,
+                                      ci.node.lineno)
+                    else:
+                        rep.holds('R5b', cons, 'difference quotients tend '
+                                  'to the Riesz representative')
+                except (Undecided, Fork) as e:
+                    rep.undecided('R5b', cons, str(e), DER)
+                except NotAnElement as e:
+                    rep.violation('R5b', cons, 'a call yields no element: '
+                                  '%s' % e, DER)
+                except PyRaise as e:
+                    rep.violation('R5b', cons, 'raises %s at `%s`' % (
+                        e.name, ast.unparse(e.node)[:70]
+                        if e.node is not None else '?'), DER)
+    rep.floor('R5b', 'numerical gradient evaluations', n, 27)
+
+
 def _s(v):
     t = repr(v)
     return t if len(t) <= 200 else t[:200] + ' ...'
@@ -337,3 +416,4 @@ def run(rep, model):
                       'derivative(x)(d) = differential, for f(x) = %s'
                       % _s(r['fx']))
     rep.floor('R6', 'evaluated functional instances', n, 90)
+    numerical_gradient(rep, model)
